@@ -123,6 +123,16 @@ CHECKS["C16"] = dict(
     technique="TLA+ spec of attribute access/iteration; TLC-generated cases; TLC trace validation of the recorded calls",
     design="3/C16")
 
+CHECKS["C12"] = dict(
+    text="spec/Exec.tla models the Twig environment's auto-escaping (content type of the template that textually contains the "
+         "print, safe values, escape/raw filters) with escaped payloads written symbolically; spec/props/C12.tla states the "
+         "requirement per configuration (13 template names x 16 print forms x 13 placements) independently (RequiredCt, Seg) and "
+         "TLC checks NoUnescapedPayload, OnceOnly, TypeOfName on the reference, then prints vectors; the harness substitutes the "
+         "real escaper's output for each symbolic payload and compares with what twig.New(loader).Execute writes.",
+    note=_EXEC_NOTE + " The escapers themselves are judged by C13; here only where and how often they are applied.",
+    technique="TLA+ reference executor with auto-escaping model-checked with TLC; TLC-generated vectors replayed into the Go code",
+    design="3/C12")
+
 NOT_YET = {}
 
 props = [json.loads(l)["id"] for l in open(os.path.join(VERIF, "properties.jsonl"))]
